@@ -217,10 +217,12 @@ CLAIMED["C17"] = dict(
     "(C17_moves_deletes_bounds: the aligned children of a node map one-to-one into the children of its partner; the number of "
     "partnerless nodes of the working copy never grows); no node created by the script is deleted by it "
     "(C17_created_never_deleted: in the strict replay every deleteNode hits a node with an id below the first fresh id); the "
-    "attribute phase emits attribute actions on its node only. PARTIAL: the attribute-action bound summed over the document "
-    "and 'every action changes the document' are decided per run: counting oracle on the real script plus a strict replay in "
-    "the Lean interpreter that flags any action leaving the id-tree or the document value unchanged. Known finding R1 (moves "
-    "past value-identical siblings).",
+    "attribute actions of a script are bounded by the non-ignored attributes of the two documents together "
+    "(C17_attribute_actions_bound: per node pair |attrs l| + |attrs x|, a renamed attribute is not deleted afterwards; the "
+    "attributes of nodes whose partner is unvisited are a potential every visit pays from). PARTIAL: 'every action changes the "
+    "document' is decided per run: a strict replay in the Lean interpreter that flags any action leaving the id-tree or the "
+    "document value unchanged, and on namespaced pairs a replay with the real patcher. Known finding R1 (moves past "
+    "value-identical siblings).",
     note="Trusted: Lean kernel and standard axioms; model validated by U5; replay oracle uses the Lean strict interpreter.",
     technique="Lean 4 proof (counting invariants threaded through the generator, strict-replay target tracking) + correspondence + "
     "change-detecting replay oracle",
